@@ -502,10 +502,19 @@ example : build ([("analysis", .str "rising"), ("sub_indicators", .none)] : SDic
 example : build ([("analysis", .str "rising"), ("indicator", .str "close")] : SDict F) = .error .invalidConfig := by rfl
 example : build ([("indicator", .str "EMA"), ("perod", .int 3)] : SDict F) = .error .typeError := by rfl
 example : build ([("period", .int 3)] : SDict F) = .error .invalidConfig := by rfl
-/-- defaults, MACD ordering, timeframe upper-casing -/
-example : build ([("indicator", .str "MACD"), ("fast_period", .int 30), ("timeframe", .str "t5")] : SDict F)
-    = .ok { cls := .macd 26 30 9 "close", timeframe := some "T5" } := by
-  rfl
+/-- defaults and the MACD ordering of `_validate_fields` -/
+example : build ([("indicator", .str "MACD"), ("fast_period", .int 30), ("round_value", .int 2)] : SDict F)
+    = .ok { cls := .macd 26 30 9 "close", round_value := 2 } := by rfl
+/-- TSI / ADX derived periods -/
+example : build ([("indicator", .str "TSI"), ("period", .int 7)] : SDict F) = .ok { cls := .tsi 7 4 "close" } := by rfl
+example : build ([("indicator", .str "ADX"), ("period", .int 7)] : SDict F) = .ok { cls := .adx 7 7 } := by rfl
+/-- timeframe upper-casing -/
+example : validateTimeframe "t5" = .ok "T5" := by
+  have : "t5".toUpper = "T5" := String.toList_inj.mp (by rw [String.toUpper, String.toList_map]; decide)
+  simp [validateTimeframe, this]
+example : validateTimeframe "x5" = .error .invalidConfig := by
+  have : "x5".toUpper = "X5" := String.toList_inj.mp (by rw [String.toUpper, String.toList_map]; decide)
+  simp [validateTimeframe, this]
 
 end counterexamples
 
